@@ -26,6 +26,9 @@ func genC02(t *rapid.T) c02Case {
 		return c
 	}
 	c.Table = gen.DrawTable(t, gen.TableOpts{MaxRefs: 170, MaxLogs: 50, SmallBlocks: true})
+	if rapid.IntRange(0, 49).Draw(t, "big") == 23 {
+		c.Table, c.Bulk = drawBig(t)
+	}
 	ng := gen.NewNameGen(t)
 	n := rapid.IntRange(0, 6).Draw(t, "nextra")
 	for i := 0; i < n; i++ {
@@ -238,7 +241,10 @@ func bulkSeeks(rd *reftable.Reader, refs []gen.Ref, o *Obs) error {
 
 func propC02(c c02Case, o *Obs) error {
 	spec := c.Table
-	if c.Bulk != nil {
+	if c.Bulk != nil && len(c.Bulk.Lens) > 0 {
+		spec.Refs = c.Bulk.Expand(spec.Min)
+		o.Class("big-records-in-big-blocks")
+	} else if c.Bulk != nil {
 		spec.Refs = c.Bulk.Expand(spec.Min)
 		o.Class("bulk-restart-cap")
 		data, _, _, err := WriteTable(spec)
